@@ -368,7 +368,62 @@ def dimz(d):
     return z3.IntVal(d) if isinstance(d, int) else d
 
 
-UNITS = [AnnealingInit(), InitializeAnnealing(), UpdateTemperature(), SetAcceptationBounds(),
+class SamplerConstructors(Spec):
+    """the constructors of the individual and of the three population Gibbs samplers: the configured acceptance band and adaptation
+    factor are the ones the sampler adapts with (whatever the sampler kind), the window length is the configured one, the
+    adaptation counter starts at 0 and every proposal scale starts at the same positive multiple of the configured scale."""
+    target = "leaspy.samplers.gibbs:IndividualGibbsSampler.__init__"
+
+    kind = "individual"
+
+    def setup(self, cx, cfg):
+        cls = resolve(self.target.rsplit(".", 1)[0])
+        lo, hi, fct, scale = cx.real("lo"), cx.real("hi"), cx.real("factor"), cx.real("scale")
+        L = cx.int("L")
+        self_ = SymObj(cls)
+        kw = dict(scale=scale, mean_acceptation_rate_target_bounds=(lo, hi), adaptive_std_factor=fct, acceptation_history_length=L)
+        if self.kind == "individual":
+            kw["n_patients"] = 4
+            shape = (2,)
+        else:
+            shape = (3,)
+        return dict(args=(self_, "VARNAME", shape), kwargs=kw, self=self_, lo=lo, hi=hi, fct=fct, scale=scale, L=L)
+
+    def pre(self, cx, st):
+        lo, hi, f, sc, L = (z(st[k]) for k in ("lo", "hi", "fct", "scale", "L"))
+        return [("accepted settings", z3.And(0 < lo, lo < hi, hi < 1, 0 < f, f < 1, sc > 0, L >= 1))]
+
+    def post(self, cx, st, out):
+        f = st["self"].f
+        need = ("_adaptive_std_factor", "_mean_acceptation_lower_bound_before_adaptation", "_mean_acceptation_upper_bound_before_adaptation", "_counter", "std",
+                "acceptation_history_length")
+        ok = all(k in f for k in need) and isinstance(f.get("std"), STensor)
+        res = [("the sampler holds its adaptation settings", z3.BoolVal(bool(ok)))]
+        if not ok:
+            return res
+        std = f["std"]
+        idx = std.fresh_idx(cx, "s")
+        first = std.fn(tuple(z3.IntVal(0) for _ in idx))
+        res += [("the configured adaptation factor is the one in force", z(f["_adaptive_std_factor"]) == z(st["fct"])),
+                ("the configured acceptance band is the one in force", z3.And(z(f["_mean_acceptation_lower_bound_before_adaptation"]) == z(st["lo"]),
+                                                                             z(f["_mean_acceptation_upper_bound_before_adaptation"]) == z(st["hi"]))),
+                ("the configured window length is the one in force", z(f["acceptation_history_length"]) == z(st["L"])),
+                ("the adaptation counter starts at 0", z(f["_counter"]) == 0),
+                ("every proposal scale starts at the same positive value", z3.And(first > 0, z3.ForAll(list(idx), z3.Implies(std.in_range(idx), std.fn(idx) == first)) if idx else z3.BoolVal(True)))]
+        return res
+
+
+
+def _constructor_units():
+    out = [SamplerConstructors()]
+    for kind, cls in (("pop-gibbs", "PopulationGibbsSampler"), ("pop-fast", "PopulationFastGibbsSampler"), ("pop-mh", "PopulationMetropolisHastingsSampler")):
+        sub = type("SamplerConstructors_" + cls, (SamplerConstructors,), dict(target=f"leaspy.samplers.gibbs:{cls}.__init__", kind=kind,
+                                                                               __doc__=SamplerConstructors.__doc__))
+        out.append(sub())
+    return out
+
+
+UNITS = _constructor_units() + [AnnealingInit(), InitializeAnnealing(), UpdateTemperature(), SetAcceptationBounds(),
          SetAdaptiveStdFactor(), UpdateStd(), UpdateAcceptationRate()]
 CALLEES = []
 
